@@ -34,3 +34,32 @@ Theorem C04_output : forall cfg orc root help_text args r r' res,
   end.
 Proof. exact C04_output_main. Qed.
 Print Assumptions C04_output.
+
+(* ---- added by bin/mkprops ---- *)
+From GoFlags Require Import Base.Str Base.Utf8 Golib.Strings Golib.Strconv Model.Types Model.Tag Model.Scan Model.Lookup Model.Convert Model.State Model.Closest Model.Help Model.Parse Model.Ini Model.Complete.
+From GoFlags Require Import Proofs.SpellSpec.
+
+(* every rejection recorded by the loop is a typed *flags.Error of the documented type, or a foreign error from a positional conversion / the unknown-option handler *)
+Theorem C04_typed :
+  forall (cfg : pconfig) (orc : oracles) (root : command) (help_text : rt -> str) 
+           (s : pst) (r : rt) (sr : step_res),
+         step cfg orc root help_text s r = Ok sr ->
+         ps_err (step_state sr) <> ps_err s ->
+         exists e : err,
+           ps_err (step_state sr) = Some e /\
+           ((exists (t : errty) (m : str),
+               e = EFlags t m /\
+               In t
+                 [ErrUnknownFlag; ErrExpectedArgument; ErrNoArgumentForBool; ErrMarshal; ErrInvalidChoice;
+                  ErrHelp]) \/ (exists m : str, e = EForeign m)).
+Proof. exact C04_typed_errors. Qed.
+Print Assumptions C04_typed.
+
+Theorem C04_typed_loop :
+  forall (cfg : pconfig) (orc : oracles) (root : command) (help_text : rt -> str) 
+           (fuel : nat) (s : pst) (r : rt) (s' : pst) (r' : rt),
+         run_loop cfg orc root help_text fuel s r = Ok (s', r') ->
+         ps_err s' = ps_err s \/ (exists e : err, ps_err s' = Some e /\ is_loop_err e).
+Proof. exact C04_typed_errors_loop. Qed.
+Print Assumptions C04_typed_loop.
+
